@@ -22,11 +22,23 @@
                         if the return-directly set is non-empty its output is routed by a second
                         branch (ReturnDirectlyToolCallID != "" ? direct_return : chat), otherwise
                         by a plain edge to chat;
-          node direct_return : the first tool message whose ToolCallID equals the stored id -> END.
+          node direct_return : the tool message at the stored position -> END.
         In Stream mode the data handed to the tools pre-handler / returned to the caller is the
         concatenation of the chunks; in Generate mode the model's message travels as one chunk.
-        The tools node is a parameter [tn] (Model/Tools.v's [tools_invoke] in the correspondence;
-        that its streamed form concatenates to the same list is property C17).
+        The tools node is a pair of parameters: [tn] = ToolsNode.Invoke (Generate mode) and [tns] =
+        ToolsNode.Stream (Stream mode: the ids of the calls and the merged stream of sparse frames),
+        Model/Tools.v's [tools_invoke] resp. [tools_stream_open] + [merge_run] in the
+        correspondence.  The consumers of the tools node's output are modelled on that output:
+        the chat node's pre-handler (and the callbacks feeding the message future) get the
+        position-wise concatenation of the frames (schema.ConcatMessageArray, [concat_pos]),
+        direct_return filters the stream FRAME BY FRAME (react.go buildReturnDirectly: a
+        StreamReaderWithConvert that keeps the slot at the stored position and drops frames in
+        which it is nil) and the caller concatenates what is left.
+
+   Since fix a2b0142 the return-directly call is identified by its POSITION among the tool calls
+   of the assistant message (state.ReturnDirectly / ReturnDirectlyToolCallIndex); before, it was
+   identified by its tool-call id ([rd_call_id_v0] / [find_tcid_v0] / [direct_answer_v0] below keep
+   that behaviour for the _refuted theorem).
 
    Messages carry what the property talks about: role, content, tool calls (id, name,
    arguments), tool call id. *)
@@ -40,13 +52,18 @@ Record msg : Type := mkMsg { m_role : role; m_content : string; m_calls : list c
 Definition assistant (content : string) (calls : list call) : msg := mkMsg RAssistant content calls "".
 Definition tool_msg (t : tmsg) : msg := mkMsg RTool (fst t) [] (snd t).
 
+(* model only: a tool stream that ended without a chunk leaves a nil message in the concatenated
+   output of the tools node (Invoke fails with the empty-stream error instead): outside the domain,
+   as in property C17 (zero_chunk_outside_domain); the theorems exclude it by hypothesis *)
+Definition E_NILSLOT : N := 9.
+
 (* error classes of a run *)
 Inductive rerr : Type :=
 | EStepLimit                 (* compose.ErrExceedMaxSteps *)
 | EModel                     (* the model call failed (scripted failure or script exhausted) *)
 | ETools (e : N)             (* the tools node failed with this class *)
 | EConcat                    (* the streamed chunks cannot be concatenated *)
-| ENoDirect.                 (* direct_return found no message with the stored id *)
+| ENoDirect.                 (* direct_return found no message at the stored position *)
 
 Inductive outcome : Type := Final (m : msg) | Failed (e : rerr).
 
@@ -142,21 +159,95 @@ Inductive step : Type :=
 | SFail
 | SMsg (content : string) (calls : list call) (chunks : list chunk).
 
-(* getReturnDirectlyToolCallID *)
-Fixpoint rd_call_id (rd : string -> bool) (calls : list call) : string :=
+(* getReturnDirectlyToolCallIndex: the position of the first call to a return-directly tool *)
+Fixpoint rd_call_index (rd : string -> bool) (calls : list call) : option nat :=
+  match calls with
+  | [] => None
+  | c :: r => if rd (c_name c) then Some O else option_map S (rd_call_index rd r)
+  end.
+
+(* ---- what the tools node hands on ------------------------------------------------------- *)
+(* ToolsNode.Invoke: the list of tool messages, one value.  ToolsNode.Stream: the merged stream
+   of sparse frames - each frame has one slot per call and only the slot of the tool that produced
+   the chunk is set (Model/Tools.v: [emitted] = that position and the chunk's content; the tool
+   message in the slot carries the id of the call at that position, [ids]) *)
+Inductive tout : Type :=
+| TWhole (results : list tmsg)
+| TFrames (ids : list string) (em : list emitted).
+
+Fixpoint all_some {A} (l : list (option A)) : option (list A) :=
+  match l with
+  | [] => Some []
+  | Some a :: r => option_map (cons a) (all_some r)
+  | None :: _ => None
+  end.
+
+(* a consumer that needs the whole value (the chat node's state pre-handler, the tool callbacks
+   of the message future): the frames are concatenated position by position *)
+Definition tout_results (o : tout) : res (list tmsg) :=
+  match o with
+  | TWhole rs => Ok rs
+  | TFrames ids em =>
+      match concat_pos ids em with
+      | Ok slots => match all_some slots with Some rs => Ok rs | None => Err E_NILSLOT end
+      | Err e => Err e
+      | Panic => Panic
+      end
+  end.
+
+(* direct_return (a transformable lambda: it converts its input stream frame by frame; an invoked
+   tools node's output is a stream of one frame): the slot at position [i] of every frame, frames
+   in which it is nil dropped; the caller concatenates what is left (nothing left = no answer) *)
+Definition tout_direct (i : nat) (o : tout) : option tmsg :=
+  match o with
+  | TWhole rs => nth_error rs i
+  | TFrames ids em =>
+      match proj i em, nth_error ids i with
+      | c :: cs, Some id => Some (concat_strings (c :: cs), id)
+      | _, _ => None
+      end
+  end.
+
+(* ---- v0: the return-directly call identified by its id (before fix a2b0142) --------------- *)
+Fixpoint rd_call_id_v0 (rd : string -> bool) (calls : list call) : string :=
   match calls with
   | [] => ""
-  | c :: r => if rd (c_name c) then c_id c else rd_call_id rd r
+  | c :: r => if rd (c_name c) then c_id c else rd_call_id_v0 rd r
   end.
-
-Fixpoint find_tcid (id : string) (rs : list tmsg) : option tmsg :=
+Fixpoint find_tcid_v0 (id : string) (rs : list tmsg) : option tmsg :=
   match rs with
   | [] => None
-  | r :: rs' => if String.eqb (snd r) id then Some r else find_tcid id rs'
+  | r :: rs' => if String.eqb (snd r) id then Some r else find_tcid_v0 id rs'
+  end.
+(* None = the run does not return directly (the branch tested the stored id for emptiness);
+   Some a = direct_return's answer: the first message with that id (Invoke), the concatenation of
+   every frame whose message carries that id (Stream) *)
+Definition direct_answer_v0 (rd : string -> bool) (calls : list call) (o : tout) : option (option tmsg) :=
+  let id := rd_call_id_v0 rd calls in
+  if String.eqb id "" then None
+  else Some match o with
+            | TWhole rs => find_tcid_v0 id rs
+            | TFrames ids em =>
+                match filter (fun e => match nth_error ids (fst e) with
+                                       | Some i => String.eqb i id
+                                       | None => false
+                                       end) em with
+                | [] => None
+                | sel => Some (concat_strings (map snd sel), id)
+                end
+            end.
+(* the same question for the code as it is now *)
+Definition direct_answer (rd : string -> bool) (calls : list call) (o : tout) : option (option tmsg) :=
+  match rd_call_index rd calls with
+  | None => None
+  | Some i => Some (tout_direct i o)
   end.
 
+Inductive mode : Type := Generate | Stream.
+
 Section React.
-  Variable tn : list call -> res (list tmsg).    (* the tools node on the calls of one assistant message *)
+  Variable tn : list call -> res (list tmsg).    (* the tools node on the calls of one assistant message: Invoke *)
+  Variable tns : list call -> res (list string * list emitted). (* ... Stream: call ids and merged frames *)
   Variable rd : string -> bool.                  (* ToolReturnDirectly *)
   Variable rd_nonempty : bool.                   (* len(ToolReturnDirectly) > 0 *)
   Variable modifier : list msg -> list msg.      (* MessageModifier (identity if none) *)
@@ -192,18 +283,19 @@ Section React.
                         match tn calls with
                         | Ok results =>
                             tr_emit (emitted_results calls results)
-                            (let id := if rd_nonempty then rd_call_id rd calls else "" in
-                            if String.eqb id "" then
+                            match (if rd_nonempty then rd_call_index rd calls else None) with
+                            | None =>
                               react_spec script' b2 (hist ++ assistant content calls :: map tool_msg results)
-                            else
+                            | Some i =>
                               match b2 with
                               | O => tr_fail EStepLimit
                               | S _ =>
-                                  match find_tcid id results with
+                                  match nth_error results i with
                                   | Some r => tr_final (tool_msg r)
                                   | None => tr_fail ENoDirect
                                   end
-                              end)
+                              end
+                            end
                         | r => tr_fail (tools_err r)
                         end
                   end
@@ -212,15 +304,22 @@ Section React.
     end.
 
   (* ---- (ii) the graph, superstep by superstep ---- *)
-  Inductive mode : Type := Generate | Stream.
   Variable checker : list chunk -> bool.         (* StreamToolCallChecker *)
 
-  Record state : Type := mkState { s_messages : list msg; s_rdid : string }.
+  (* s_rd: state.ReturnDirectly / ReturnDirectlyToolCallIndex *)
+  Record state : Type := mkState { s_messages : list msg; s_rd : option nat }.
 
   Inductive task : Type :=
   | TChat (input : list msg)
   | TTools (input : msg)
-  | TDirect (input : list tmsg).
+  | TDirect (input : tout).
+
+  (* the tools node's output in the given mode *)
+  Definition tools_out (md : mode) (calls : list call) : res tout :=
+    match md with
+    | Generate => res_map TWhole (tn calls)
+    | Stream => res_map (fun p => TFrames (fst p) (snd p)) (tns calls)
+    end.
 
   (* what the model emits for a scripted message in the given mode *)
   Definition emitted_chunks (md : mode) (content : string) (calls : list call) (chunks : list chunk) : list chunk :=
@@ -243,7 +342,7 @@ Section React.
     | S fuel' =>
         match t with
         | TChat input =>
-            let s1 := mkState (s_messages s ++ input) (s_rdid s) in
+            let s1 := mkState (s_messages s ++ input) (s_rd s) in
             tr_input (modifier (s_messages s1))
               match script with
               | [] => tr_fail EModel
@@ -260,27 +359,37 @@ Section React.
               end
         | TTools m =>
             let s1 := mkState (s_messages s ++ [m])
-                              (if rd_nonempty then rd_call_id rd (m_calls m) else "") in
+                              (if rd_nonempty then rd_call_index rd (m_calls m) else None) in
             tr_round (m_calls m)
-              match tn (m_calls m) with
-              | Ok results =>
-                  tr_emit (emitted_results (m_calls m) results)
-                  (if rd_nonempty then
-                    if String.eqb (s_rdid s1) "" then agent_loop md fuel' script (TChat (map tool_msg results)) s1
-                    else agent_loop md fuel' script (TDirect results) s1
-                  else agent_loop md fuel' script (TChat (map tool_msg results)) s1)
+              match tools_out md (m_calls m) with
+              | Ok o =>
+                  match tout_results o with
+                  | Ok results =>
+                      tr_emit (emitted_results (m_calls m) results)
+                      (if rd_nonempty then
+                        match s_rd s1 with
+                        | None => agent_loop md fuel' script (TChat (map tool_msg results)) s1
+                        | Some _ => agent_loop md fuel' script (TDirect o) s1
+                        end
+                      else agent_loop md fuel' script (TChat (map tool_msg results)) s1)
+                  | r => tr_fail (tools_err r)
+                  end
               | r => tr_fail (tools_err r)
               end
-        | TDirect results =>
-            match find_tcid (s_rdid s) results with
-            | Some r => tr_final (tool_msg r)
+        | TDirect o =>
+            match s_rd s with
+            | Some i =>
+                match tout_direct i o with
+                | Some r => tr_final (tool_msg r)
+                | None => tr_fail ENoDirect
+                end
             | None => tr_fail ENoDirect
             end
         end
     end.
 
   Definition agent_run (md : mode) (max_steps : nat) (script : list step) (input : list msg) : trace :=
-    agent_loop md max_steps script (TChat input) (mkState [] "").
+    agent_loop md max_steps script (TChat input) (mkState [] None).
 End React.
 
 (* compose/graph.go: maxRunSteps == 0 -> len(nodes) + 10 ; nodes = chat, tools [, direct_return] *)
@@ -309,3 +418,22 @@ Definition mod_rewrite (h : list msg) : list msg :=
   end.
 (* keeps the last n messages (shifting them to the front of the slice it is given, in place) *)
 Definition mod_window (n : nat) (h : list msg) : list msg := skipn (List.length h - n) h.
+
+(* ---- compose.ToolsNode.Stream as the agent graph's nodes see it ---------------------------- *)
+(* Model/Tools.v: the tool streams are opened (the calls complete in the order [pi]; a panic is
+   recovered by the graph's task executor), merged (interleaving [sched_of]: from which stream the
+   next frame is taken) and read to the end; an error item ends the stream with that error *)
+Definition tools_stream_frames (kind_of : string -> option tkind) (inv : string -> string -> tres)
+           (str : string -> string -> sres) (handler : option (string -> string -> tres))
+           (pi : list nat) (sched_of : list (list string * option N) -> list nat) (calls : list call)
+  : res (list string * list emitted) :=
+  match in_graph (tools_stream_open kind_of inv str handler pi true calls) with
+  | Ok ss =>
+      let srcs := stream_srcs ss in
+      match merge_run (sched_of srcs) srcs with
+      | (em, None) => Ok (stream_ids ss, em)
+      | (_, Some e) => Err e
+      end
+  | Err e => Err e
+  | Panic => Panic
+  end.
